@@ -238,6 +238,9 @@ namespace Pistache::Tcp
 
         void armTimerMsImpl(TimerEntry entry);
 
+        // Closes the file descriptors of queued file buffers that will never be sent
+        static void releaseWrites(std::deque<WriteEntry>& wq);
+
         // This will attempt to drain the write queue for the fd
         void asyncWriteImpl(Fd fd);
         ssize_t sendRawBuffer(Fd fd, const char* buffer, size_t len, int flags);
